@@ -2,7 +2,7 @@
 # runs every claimed check of one tier on the current tree; prints one line per property
 cd "$(dirname "$0")/.."
 TIER=${1:-quick}
-for c in C01 C02 C03 C04 C05 C06 C07 C08 C10 C11 C12 C13 C14 C15 C16 C17 C18 C19 C20; do
+for c in C01 C02 C03 C04 C05 C06 C07 C08 C09 C10 C11 C12 C13 C14 C15 C16 C17 C18 C19 C20; do
   s=$(date +%s); ./check $c --tier $TIER > /tmp/run_$c.out 2> /tmp/run_$c.err; e=$?; t=$(( $(date +%s) - s ))
   echo "$c exit=$e ${t}s $(grep -c '^KNOWN-FINDING' /tmp/run_$c.out) known $(grep -c '^VIOLATION' /tmp/run_$c.out) viol $(grep -c '^INCONCLUSIVE' /tmp/run_$c.out) inconcl"
 done
